@@ -77,6 +77,7 @@ type WEntry struct {
 	Nil   bool
 	Rev   uint64
 	Value []byte
+	T     int64 // when the entry was produced (Store.Now; 0 without a clock)
 }
 
 type msg struct {
@@ -90,6 +91,15 @@ type Store struct {
 	seq      uint64
 	last     map[string]msg
 	watchers []*Watcher
+	// Now, if set, stamps watch entries with the time they were produced
+	Now func() int64
+}
+
+func (s *Store) now() int64 {
+	if s.Now != nil {
+		return s.Now()
+	}
+	return 0
 }
 
 // Watcher models one kv.Watch(key) as seen through natsWatcherAdapter.
@@ -147,7 +157,7 @@ func (s *Store) publish(key string, val []byte, tomb bool) uint64 {
 	s.last[key] = m // history 1: the previous message of the key is dropped
 	for _, w := range s.watchers {
 		if !w.stopped && w.key == key {
-			w.data = append(w.data, WEntry{Rev: m.rev, Value: clone(m.val)})
+			w.data = append(w.data, WEntry{Rev: m.rev, Value: clone(m.val), T: s.now()})
 		}
 	}
 	return m.rev
@@ -214,7 +224,7 @@ func (s *Store) Expire(key string) {
 func (s *Store) Watch(key string) *Watcher {
 	w := &Watcher{key: key, markerDue: true}
 	if m, ok := s.last[key]; ok {
-		w.data = append(w.data, WEntry{Rev: m.rev, Value: clone(m.val)})
+		w.data = append(w.data, WEntry{Rev: m.rev, Value: clone(m.val), T: s.now()})
 		w.initPending = 1
 	}
 	s.watchers = append(s.watchers, w)
